@@ -17,7 +17,7 @@ import (
 
 // flowCase is one workflow of Flow.tla: tasks 1..N, deps[t] = tasks t
 // references, via[t][d] = how (1 direct, 2 through a nested non-task field,
-// 3 through a computed field), latentOf[t] = task whose result must be
+// 3 through a computed field, 4 a list-valued field, 5 a list through a nested field), latentOf[t] = task whose result must be
 // filled before t exists (0 = present from the start), failing = task whose
 // runner returns an error (0 = none).
 type flowCase struct {
@@ -26,6 +26,9 @@ type flowCase struct {
 	Via      [][]int `json:"via"`      // index t-1 -> parallel to Deps
 	LatentOf []int   `json:"latentOf"` // index t-1
 	Failing  int     `json:"failing"`
+	// IgnoreConcrete is flow.Config.IgnoreConcrete (as cue cmd sets it): references to concrete
+	// scalars are no dependencies; structs and lists still are
+	IgnoreConcrete bool `json:"ignoreConcrete"`
 }
 
 type flowEvent struct {
@@ -55,11 +58,17 @@ func (c *flowCase) render() string {
 					ins = append(ins, fmt.Sprintf("d%d: mid%d_%d.x.y", d, t, d))
 				case 3:
 					ins = append(ins, fmt.Sprintf("d%d: \"pre-\" + t%d.out", d, d))
+				case 4:
+					// the dependency is a list-valued field of the other task
+					ins = append(ins, fmt.Sprintf("d%d: t%d.outs", d, d))
+				case 5:
+					fmt.Fprintf(&b, "%smid%d_%d: l: t%d.outs\n", indent, t, d, d)
+					ins = append(ins, fmt.Sprintf("d%d: mid%d_%d.l", d, t, d))
 				default:
 					ins = append(ins, fmt.Sprintf("d%d: t%d.out", d, d))
 				}
 			}
-			fmt.Fprintf(&b, "%st%d: {$id: \"t\", in: {%s}, out: string}\n", indent, t, strings.Join(ins, ", "))
+			fmt.Fprintf(&b, "%st%d: {$id: \"t\", in: {%s}, out: string, outs: [...string]}\n", indent, t, strings.Join(ins, ", "))
 			if len(children[t]) > 0 {
 				fmt.Fprintf(&b, "%sif t%d.out != _|_ {\n", indent, t)
 				emit(t, indent+"\t")
@@ -102,6 +111,7 @@ func runFlow(c *flowCase, pick func(running []int) int) ([]flowEvent, error) {
 	}
 	depSet := func(t int) []int { return c.Deps[t-1] }
 	cfg := &flow.Config{
+		IgnoreConcrete: c.IgnoreConcrete,
 		UpdateFunc: func(ctl *flow.Controller, t *flow.Task) error {
 			e := flowEvent{Ev: "Update", St: make([]string, c.N)}
 			for i := range e.St {
@@ -126,6 +136,15 @@ func runFlow(c *flowCase, pick func(running []int) int) ([]flowEvent, error) {
 			var seen []int
 			for i, d := range depSet(n) {
 				in := t.Value().LookupPath(cue.MakePath(cue.Str("in"), cue.Str(fmt.Sprintf("d%d", d))))
+				if k := c.Via[n-1][i]; k == 4 || k == 5 {
+					// a list dependency: its single element is the producer's result
+					if l, err := in.List(); err == nil && l.Next() {
+						if s, err := l.Value().String(); err == nil && s == fmt.Sprintf("r%d", d) {
+							seen = append(seen, d)
+						}
+					}
+					continue
+				}
 				s, err := in.String()
 				want := fmt.Sprintf("r%d", d)
 				if c.Via[n-1][i] == 3 {
@@ -140,7 +159,7 @@ func runFlow(c *flowCase, pick func(running []int) int) ([]flowEvent, error) {
 			if !ok {
 				return errors.New("injected task failure")
 			}
-			return t.Fill(map[string]any{"out": fmt.Sprintf("r%d", n)})
+			return t.Fill(map[string]any{"out": fmt.Sprintf("r%d", n), "outs": []string{fmt.Sprintf("r%d", n)}})
 		}), nil
 	})
 	var trace []flowEvent
@@ -176,6 +195,7 @@ func runFlow(c *flowCase, pick func(running []int) int) ([]flowEvent, error) {
 			want := v
 			for t := 1; t <= c.N; t++ {
 				want = want.FillPath(cue.MakePath(cue.Str(fmt.Sprintf("t%d", t)), cue.Str("out")), fmt.Sprintf("r%d", t))
+				want = want.FillPath(cue.MakePath(cue.Str(fmt.Sprintf("t%d", t)), cue.Str("outs")), []string{fmt.Sprintf("r%d", t)})
 			}
 			// compare through export of all task fields
 			for t := 1; t <= c.N; t++ {
